@@ -459,12 +459,14 @@ def validate(results, L, shards=None):
     work = os.path.join(A.BUILD, "work")
     parts = [results[i::shards] for i in range(shards)]
     procs = []
-    codes = {k: v for k, v in L.codes.items()}
     for si, part in enumerate(parts):
         if not part:
             continue
         tr = os.path.join(work, "atrace-%d-%d.ndjson" % (os.getpid(), si))
         n = 1
+        # the code table of a shard holds the lines its events mention
+        used = {k for sc, evs in part for e in evs for k in e.get("prog", ())}
+        codes = {k: v for k, v in L.codes.items() if k in used or len(L.codes) < 200}
         with open(tr, "w") as f:
             f.write(json.dumps({"e": "Codes", "codes": codes}) + "\n")
             for sc, evs in part:
@@ -520,6 +522,10 @@ PLAN = {
 QUICK_REPLAY = {"MC_C13": 6000, "MC_C07": 8000, "MC_C08": 4000, "MC_C14": 6000, "MC_C15": 8000, "MC_C12": None, "MC_C06": None}
 
 
+RECORDED = ("C06", "C19")      # the checks that also validate recorded runs of the repository's own clients
+RECORDED_COUNT = [0]
+
+
 def run(prop, tier, replay=None):
     t0 = time.time()
     A.build("plain")
@@ -528,11 +534,15 @@ def run(prop, tier, replay=None):
     L = Lines()
     models, flavour, nq, nt = PLAN[prop]
     stats_all, scripts, viol_model = [], [], []
+    recorded_sid = None
     if replay:
         rp = json.load(open(replay))
-        sc = Script(rp["sid"])
-        sc.lines, sc.meta = rp["script"], rp["meta"]
-        scripts = [sc]
+        if rp["sid"].startswith(("test-", "cli-")):
+            recorded_sid = rp["sid"]        # a recorded client run: recorded again below
+        else:
+            sc = Script(rp["sid"])
+            sc.lines, sc.meta = rp["script"], rp["meta"]
+            scripts = [sc]
     else:
         for mname in models:
             stats, trs, consts, violated = model_check(mname, tier)
@@ -570,6 +580,17 @@ def run(prop, tier, replay=None):
         if prop == "C19":
             scripts += c19_scripts(L, rnd, tier)
     results = execute(scripts, L)
+    nrec = 0
+    if (prop in RECORDED and not replay) or recorded_sid:
+        # executions the repository already has (its C test programs, asmline over its test/*.asm), recorded through harness/recshim.c
+        import rectrace as R
+        rres, rcodes = R.prepare(R.record("thorough" if recorded_sid else tier, rnd))
+        if recorded_sid:
+            rres = [x for x in rres if x[0].sid == recorded_sid]
+        L.codes.update(rcodes)
+        results += rres
+        nrec = len(rres)
+    RECORDED_COUNT[0] = nrec
     if prop == "C19":
         return finish(prop, tier, t0, results, L, stats_all, viol_model, replay, level="exploration",
                       rule="File contents of every size of the TLC-enumerated set FILESIZES (0..3, every size within +-40 of 4096 and +-20 of 8192, 12288; quick: a subset) are generated "
@@ -639,9 +660,11 @@ def finish(prop, tier, t0, results, L, stats_all, viol_model, replay, extra_cov=
            "evaluations": judged, "distinct_nontrivial": len({tuple(l.split()[0] for l in sc.lines) + tuple(str(e.get("ret")) for e in evs) for sc, evs in results}),
            "rule": "TLC model-checks spec/AsmApi.tla (configurations below) and prints every explored transition of the listed actions with a shortest path to its source state; "
                    "each is concretised (lines of the same solo length, caller buffers keeping the same distance to the 20-byte reserve) and executed on the freshly built library, "
-                   "plus seeded random histories; every execution is validated event by event by spec/ApiTrace.tla. distinct_nontrivial = distinct (call sequence shape, return values) "
+                   "plus seeded random histories; every execution is validated event by event by spec/ApiTrace.tla. Where recorded_client_runs > 0, that many runs of the "
+                   "repository's own clients (its C test programs; asmline over its test/*.asm files under several flag sets), recorded through the link-time recorder "
+                   "harness/recshim.c without touching the client code, are validated by the same trace specification. distinct_nontrivial = distinct (call sequence shape, return values) "
                    "signatures among the executions.",
-           "models": stats_all, "executions": len(results), "events_judged": judged, "model_drift": dict(drift),
+           "models": stats_all, "executions": len(results), "events_judged": judged, "model_drift": dict(drift), "recorded_client_runs": RECORDED_COUNT[0],
            "known_findings": {k: v[1] for k, v in kf.items()}, "other_property_observations": dict(others),
            "exhaustive": tier == "thorough" and not replay}
     if extra_cov:
